@@ -240,7 +240,7 @@ def discharge(ob, timeout_ms=10000, want_model=True):
     for h, n in zip(ob.hyps, names):
         al = ("clock" in ob.name or "aligned" in ob.name)
         if not z3.is_quantifier(h) or n is None or kw in n or "bridge" in n or "append-only" in n or n in ("valid_channel", "spec-def") \
-                or (al and ("clock" in n or "aligned" in n)):
+                or (al and ("clock" in n or "aligned" in n)) or any(x in n for x in (ob.meta.get("slice_hints") or ())):
             sliced.append(h)
     t = timeout_ms
     ladder = [("full", ob.hyps, min(3000, t), 0), ("quantifier-free-hyps", qf, min(6000, t), 0), ("sliced", sliced, min(6000, t), 0),
